@@ -262,7 +262,7 @@ Definition get_config_ScaleConstraints ser (c : cfg) : kwargs := get_config ser 
 Definition params_Lattice : list (string * option value) :=
   [("lattice_sizes", None); ("units", Some (VInt (1)%Z)); ("monotonicities", Some VNone); ("unimodalities", Some VNone); ("edgeworth_trusts", Some VNone); ("trapezoid_trusts", Some VNone); ("monotonic_dominances", Some VNone); ("range_dominances", Some VNone); ("joint_monotonicities", Some VNone); ("joint_unimodalities", Some VNone); ("output_min", Some VNone); ("output_max", Some VNone); ("num_projection_iterations", Some (VInt (10)%Z)); ("monotonic_at_every_step", Some (VBool true)); ("clip_inputs", Some (VBool true)); ("interpolation", Some (VStr "hypercube")); ("kernel_initializer", Some (VStr "random_uniform_or_linear_initializer")); ("kernel_regularizer", Some VNone)].
 Definition stores_Lattice : list pstore :=
-  [mk_store "lattice_sizes" "lattice_sizes" Direct None; mk_store "units" "units" Direct None; mk_store "monotonicities" "monotonicities" Direct None; mk_store "unimodalities" "unimodalities" Direct None; mk_store "edgeworth_trusts" "edgeworth_trusts" (Wrapped "single_tuple_to_list") None; mk_store "trapezoid_trusts" "trapezoid_trusts" (Wrapped "single_tuple_to_list") None; mk_store "monotonic_dominances" "monotonic_dominances" (Wrapped "single_tuple_to_list") None; mk_store "range_dominances" "range_dominances" (Wrapped "single_tuple_to_list") None; mk_store "joint_monotonicities" "joint_monotonicities" (Wrapped "single_tuple_to_list") None; mk_store "joint_unimodalities" "joint_unimodalities" (Wrapped "single_tuple_to_list") None; mk_store "output_min" "output_min" Direct None; mk_store "output_max" "output_max" Direct None; mk_store "num_projection_iterations" "num_projection_iterations" Direct None; mk_store "monotonic_at_every_step" "monotonic_at_every_step" Direct None; mk_store "clip_inputs" "clip_inputs" Direct None; mk_store "interpolation" "interpolation" Direct None; mk_store "kernel_initializer" "kernel_initializer" (Wrapped "create_kernel_initializer") None; mk_store "kernel_regularizer" "kernel_regularizer" (Wrapped "rebound;list_of:TorsionRegularizer|LaplacianRegularizer|keras.regularizers.get") None].
+  [mk_store "lattice_sizes" "lattice_sizes" Direct None; mk_store "units" "units" Direct None; mk_store "monotonicities" "monotonicities" Direct None; mk_store "unimodalities" "unimodalities" Direct None; mk_store "edgeworth_trusts" "edgeworth_trusts" (Wrapped "single_tuple_to_list") None; mk_store "trapezoid_trusts" "trapezoid_trusts" (Wrapped "single_tuple_to_list") None; mk_store "monotonic_dominances" "monotonic_dominances" (Wrapped "single_tuple_to_list") None; mk_store "range_dominances" "range_dominances" (Wrapped "single_tuple_to_list") None; mk_store "joint_monotonicities" "joint_monotonicities" (Wrapped "single_tuple_to_list") None; mk_store "joint_unimodalities" "joint_unimodalities" (Wrapped "single_pair_to_list") None; mk_store "output_min" "output_min" Direct None; mk_store "output_max" "output_max" Direct None; mk_store "num_projection_iterations" "num_projection_iterations" Direct None; mk_store "monotonic_at_every_step" "monotonic_at_every_step" Direct None; mk_store "clip_inputs" "clip_inputs" Direct None; mk_store "interpolation" "interpolation" Direct None; mk_store "kernel_initializer" "kernel_initializer" (Wrapped "create_kernel_initializer") None; mk_store "kernel_regularizer" "kernel_regularizer" (Wrapped "rebound;list_of:TorsionRegularizer|LaplacianRegularizer|keras.regularizers.get") None].
 Definition emits_Lattice : list emit :=
   [mk_emit "lattice_sizes" (Attr "lattice_sizes") None; mk_emit "units" (Attr "units") None; mk_emit "monotonicities" (Attr "monotonicities") None; mk_emit "unimodalities" (Attr "unimodalities") None; mk_emit "edgeworth_trusts" (Attr "edgeworth_trusts") None; mk_emit "trapezoid_trusts" (Attr "trapezoid_trusts") None; mk_emit "monotonic_dominances" (Attr "monotonic_dominances") None; mk_emit "range_dominances" (Attr "range_dominances") None; mk_emit "joint_monotonicities" (Attr "joint_monotonicities") None; mk_emit "joint_unimodalities" (Attr "joint_unimodalities") None; mk_emit "output_min" (Attr "output_min") None; mk_emit "output_max" (Attr "output_max") None; mk_emit "num_projection_iterations" (Attr "num_projection_iterations") None; mk_emit "monotonic_at_every_step" (Attr "monotonic_at_every_step") None; mk_emit "clip_inputs" (Attr "clip_inputs") None; mk_emit "interpolation" (Attr "interpolation") None; mk_emit "kernel_initializer" (Serialized "kernel_initializer") None; mk_emit "kernel_regularizer" (Serialized "kernel_regularizer") None].
 Definition desc_Lattice : class_desc :=
